@@ -350,6 +350,18 @@ enum Ty {
     ArrN,
     RefStr,
     Phantom(usize),
+    /// `(T, u8)`
+    TupParam(usize),
+    /// `[T; 2]`
+    ArrParam(usize),
+    /// `Option<Vec<T>>`
+    OptVecParam(usize),
+    /// `Box<T>`
+    BoxParam(usize),
+    /// `*const T` (always null)
+    PtrParam(usize),
+    /// another generated type, instantiated with this type's first type parameter instead of a concrete type
+    NestedGen(usize),
 }
 
 #[derive(Clone, Debug)]
@@ -367,6 +379,8 @@ struct Gen {
     const_first: bool,
     where_style: bool,
     default_last: bool,
+    /// container attributes `#[debug(bound(..))]` / `bounds(..)` / `where(..)` (derive_more flavor only)
+    dbg_bounds: Vec<String>,
 }
 
 impl Gen {
@@ -440,13 +454,26 @@ impl Gen {
         let n = self.cn.unwrap_or(0).to_string();
         self.list("'static", |t| t.inst.ty().to_string(), &n)
     }
+    /// arguments when used inside a type whose first type parameter is `tp` (and which has `'a` iff `lt`)
+    fn inst_with_param(&self, lt: bool, tp: &str) -> String {
+        let n = self.cn.unwrap_or(0).to_string();
+        self.list(if lt { "'a" } else { "'static" }, |_| tp.to_string(), &n)
+    }
 }
 
 #[derive(Clone, Debug)]
 enum Attr {
     None,
     Skip(&'static str),
-    Fmt { lit: String, args: Vec<String>, inline_copy: Vec<String> },
+    Fmt {
+        lit: String,
+        args: Vec<String>,
+        inline_copy: Vec<String>,
+        /// `#[debug("lit", args,)]`
+        trailing: bool,
+        /// the literal is written as a raw string in the attribute
+        raw: bool,
+    },
 }
 
 #[derive(Clone, Debug)]
@@ -469,6 +496,8 @@ struct Variant {
     name: String,
     kind: VKind,
     fields: Vec<FieldDef>,
+    /// a variant-level `#[debug("..", args)]` (enum variants only): the whole variant prints as the literal
+    own_fmt: Option<Attr>,
 }
 
 #[derive(Clone, Debug)]
@@ -497,6 +526,38 @@ fn lit_tok(s: &str) -> String {
     proc_macro2::Literal::string(s).to_string()
 }
 
+/// `r#"..."#` (the literals generated here contain neither quotes nor backslashes when `raw` is chosen)
+fn raw_lit_tok(s: &str) -> String {
+    format!("r#\"{s}\"#")
+}
+
+fn attr_text(a: &Attr) -> String {
+    match a {
+        Attr::None => String::new(),
+        Attr::Skip(w) => format!("#[debug({w})] "),
+        Attr::Fmt { lit, args, trailing, raw, .. } => {
+            let l = if *raw { raw_lit_tok(lit) } else { lit_tok(lit) };
+            let tc = if *trailing { "," } else { "" };
+            if args.is_empty() {
+                format!("#[debug({l}{tc})] ")
+            } else {
+                format!("#[debug({l}, {}{tc})] ", args.join(", "))
+            }
+        }
+    }
+}
+
+fn fmt_call(a: &Attr) -> String {
+    let Attr::Fmt { lit, args, inline_copy, .. } = a else { return String::new() };
+    let mut v: Vec<String> = args.clone();
+    v.extend(inline_copy.iter().map(|n| format!("{n} = *{n}")));
+    if v.is_empty() {
+        format!("format_args!({})", lit_tok(lit))
+    } else {
+        format!("format_args!({}, {})", lit_tok(lit), v.join(", "))
+    }
+}
+
 impl Ty {
     fn render(&self, types: &[TypeDef], g: &Gen) -> String {
         match self {
@@ -514,6 +575,12 @@ impl Ty {
             Ty::ArrN => "[i32; N]".to_string(),
             Ty::RefStr => "&'a str".to_string(),
             Ty::Phantom(k) => format!("std::marker::PhantomData<{}>", g.tps[*k].name),
+            Ty::TupParam(k) => format!("({}, u8)", g.tps[*k].name),
+            Ty::ArrParam(k) => format!("[{}; 2]", g.tps[*k].name),
+            Ty::OptVecParam(k) => format!("Option<Vec<{}>>", g.tps[*k].name),
+            Ty::BoxParam(k) => format!("Box<{}>", g.tps[*k].name),
+            Ty::PtrParam(k) => format!("*const {}", g.tps[*k].name),
+            Ty::NestedGen(i) => format!("{}{}", types[*i].name, types[*i].gen.inst_with_param(g.lt, g.tps[0].name)),
         }
     }
     fn value(&self, d: &mut Dice, types: &[TypeDef], g: &Gen) -> String {
@@ -557,6 +624,23 @@ impl Ty {
             }
             Ty::RefStr => ["\"lt\"", "\"x\\ny\""][d.pick(2)].to_string(),
             Ty::Phantom(_) => "std::marker::PhantomData".to_string(),
+            Ty::TupParam(k) => format!("({}, 7)", g.tps[*k].inst.value(d)),
+            Ty::ArrParam(k) => format!("[{}, {}]", g.tps[*k].inst.value(d), g.tps[*k].inst.value(d)),
+            Ty::OptVecParam(k) => {
+                if d.chance(25) {
+                    "None".to_string()
+                } else {
+                    let n = d.weighted(&[2, 4, 3]);
+                    format!("Some(vec![{}])", (0..n).map(|_| g.tps[*k].inst.value(d)).collect::<Vec<_>>().join(", "))
+                }
+            }
+            Ty::BoxParam(k) => format!("Box::new({})", g.tps[*k].inst.value(d)),
+            Ty::PtrParam(_) => "std::ptr::null()".to_string(),
+            Ty::NestedGen(i) => {
+                let t = &types[*i];
+                let v = d.pick(t.variants.len());
+                t.value(d, types, v)
+            }
         }
     }
     fn leaf(&self) -> Option<Leaf> {
@@ -566,13 +650,24 @@ impl Ty {
         }
     }
     fn uses_param(&self) -> bool {
-        matches!(self, Ty::Param(_) | Ty::VecParam(_) | Ty::RefParam(_) | Ty::Phantom(_))
+        matches!(
+            self,
+            Ty::Param(_) | Ty::VecParam(_) | Ty::RefParam(_) | Ty::Phantom(_) | Ty::TupParam(_) | Ty::ArrParam(_) | Ty::OptVecParam(_) | Ty::BoxParam(_) | Ty::PtrParam(_) | Ty::NestedGen(_)
+        )
+    }
+    /// the type parameter (index) the type mentions
+    fn param_used(&self) -> Option<usize> {
+        match self {
+            Ty::Param(k) | Ty::VecParam(k) | Ty::RefParam(k) | Ty::Phantom(k) | Ty::TupParam(k) | Ty::ArrParam(k) | Ty::OptVecParam(k) | Ty::BoxParam(k) | Ty::PtrParam(k) => Some(*k),
+            Ty::NestedGen(_) => Some(0),
+            _ => None,
+        }
     }
 }
 
 impl TypeDef {
     fn has_attrs(&self) -> bool {
-        self.variants.iter().any(|v| v.fields.iter().any(|f| !matches!(f.attr, Attr::None)))
+        self.variants.iter().any(|v| v.own_fmt.is_some() || v.fields.iter().any(|f| !matches!(f.attr, Attr::None)))
     }
     fn value(&self, d: &mut Dice, types: &[TypeDef], vi: usize) -> String {
         let v = &self.variants[vi];
@@ -595,17 +690,7 @@ impl TypeDef {
             if flavor != Flavor::Dm {
                 return String::new();
             }
-            match &f.attr {
-                Attr::None => String::new(),
-                Attr::Skip(w) => format!("#[debug({w})] "),
-                Attr::Fmt { lit, args, .. } => {
-                    if args.is_empty() {
-                        format!("#[debug({})] ", lit_tok(lit))
-                    } else {
-                        format!("#[debug({}, {})] ", lit_tok(lit), args.join(", "))
-                    }
-                }
-            }
+            attr_text(&f.attr)
         };
         match v.kind {
             VKind::Unit => String::new(),
@@ -632,10 +717,19 @@ impl TypeDef {
         let decl = self.gen.decl();
         let wh = self.gen.where_clause();
         let mut s = String::new();
+        let derive = if flavor == Flavor::Dm && !self.gen.dbg_bounds.is_empty() {
+            format!("{derive}{}", self.gen.dbg_bounds.iter().map(|b| format!("    {b}\n")).collect::<String>())
+        } else {
+            derive.to_string()
+        };
         if self.is_enum {
             let _ = write!(s, "    {derive}    pub enum {}{decl}{wh} {{\n", self.name);
             for v in &self.variants {
-                let _ = write!(s, "        {}{},\n", v.name, self.render_fields(v, types, flavor, ""));
+                let own = match (&v.own_fmt, flavor) {
+                    (Some(a), Flavor::Dm) => attr_text(a),
+                    _ => String::new(),
+                };
+                let _ = write!(s, "        {own}{}{},\n", v.name, self.render_fields(v, types, flavor, ""));
             }
             s.push_str("    }\n");
         } else {
@@ -676,6 +770,10 @@ impl TypeDef {
             }
         };
         let builder = |v: &Variant| -> String {
+            if let Some(a) = &v.own_fmt {
+                // the documented meaning of a variant-level format: the variant prints as the literal
+                return format!("f.write_fmt({})", fmt_call(a));
+            }
             let exhaustive = !v.fields.iter().any(|f| matches!(f.attr, Attr::Skip(_)));
             let fin = if exhaustive { ".finish()" } else { ".finish_non_exhaustive()" };
             let mut b = String::new();
@@ -699,15 +797,7 @@ impl TypeDef {
                             bind.clone()
                         }
                     }
-                    Attr::Fmt { lit, args, inline_copy } => {
-                        let mut a: Vec<String> = args.clone();
-                        a.extend(inline_copy.iter().map(|n| format!("{n} = *{n}")));
-                        if a.is_empty() {
-                            format!("&format_args!({})", lit_tok(lit))
-                        } else {
-                            format!("&format_args!({}, {})", lit_tok(lit), a.join(", "))
-                        }
-                    }
+                    Attr::Fmt { .. } => format!("&{}", fmt_call(&f.attr)),
                 };
                 match v.kind {
                     VKind::Tuple => {
@@ -722,7 +812,9 @@ impl TypeDef {
             b
         };
         let mut body = String::new();
-        if self.is_enum {
+        if self.is_enum && self.variants.is_empty() {
+            body.push_str("            match *self {}\n");
+        } else if self.is_enum {
             body.push_str("            match self {\n");
             for v in &self.variants {
                 let pat = match v.kind {
@@ -796,6 +888,17 @@ fn gen_ty(d: &mut Dice, depth: usize, cx: &mut Cx, g: &Gen) -> Ty {
         2 => {
             let i = gen_type(d, depth + 1, cx);
             cx.label(&format!("nesting_depth>={}", depth + 1));
+            if !g.tps.is_empty() && !cx.types[i].gen.tps.is_empty() && (g.lt || !cx.types[i].gen.lt) && d.chance(60) {
+                // the nested generic type is used as `Inner<T>`, not `Inner<i32>`: its parameters are instantiated like
+                // the outer type's first parameter (and carry no bounds the outer parameter would have to repeat)
+                let inst = g.tps[0].inst;
+                for t in cx.types[i].gen.tps.iter_mut() {
+                    t.inst = inst;
+                    t.bound = None;
+                }
+                cx.label("nested_generic_instantiated_with_param");
+                return Ty::NestedGen(i);
+            }
             match d.weighted(&[5, 2, 2, 1, 1]) {
                 0 => Ty::Nested(i),
                 1 => Ty::Opt(Box::new(Ty::Nested(i))),
@@ -816,6 +919,11 @@ fn gen_generic_use(d: &mut Dice, g: &Gen) -> Ty {
         if g.lt {
             alts.push(Ty::RefParam(k));
         }
+        alts.push(Ty::TupParam(k));
+        alts.push(Ty::ArrParam(k));
+        alts.push(Ty::OptVecParam(k));
+        alts.push(Ty::BoxParam(k));
+        alts.push(Ty::PtrParam(k));
     }
     if g.cn.is_some() {
         alts.push(Ty::ArrN);
@@ -845,6 +953,17 @@ fn gen_generics(d: &mut Dice) -> Gen {
     g.const_first = d.chance(30);
     g.where_style = d.chance(30);
     g.default_last = d.chance(20);
+    if !g.tps.is_empty() && d.chance(25) {
+        // container-level bounds: they only add predicates (every instantiation here is `Clone + Debug`)
+        let n = 1 + d.weighted(&[3, 1]);
+        for j in 0..n {
+            let kw = ["bound", "bounds", "where"][d.pick(if AVOID_WHERE_BOUND_KEYWORD { 2 } else { 3 })];
+            let t = g.tps[d.pick(g.tps.len())].name;
+            let pred = [format!("{t}: Clone"), format!("{t}: std::fmt::Debug"), format!("{t}: Clone + std::fmt::Debug"), format!("Vec<{t}>: Clone")][(d.pick(4) + j) % 4].clone();
+            let tc = if d.chance(25) { "," } else { "" };
+            g.dbg_bounds.push(format!("#[debug({kw}({pred}{tc}))]"));
+        }
+    }
     g
 }
 
@@ -856,6 +975,13 @@ fn gen_field_fmt(d: &mut Dice, v: &Variant, me: usize, is_enum: bool, cx: &mut C
     let mut named_args: Vec<String> = vec![];
     let mut inline_copy: Vec<String> = vec![];
     let mut implicit_counter = 0usize;
+    let mut inlined: Vec<String> = vec![];
+    let mut shadowed: Vec<String> = vec![];
+    if d.chance(3) {
+        // a literal without anything in it: the field's value is the empty text
+        cx.label("field_fmt_empty_literal");
+        return Attr::Fmt { lit: String::new(), args: vec![], inline_copy: vec![], trailing: d.chance(30), raw: false };
+    }
     let npieces = 1 + d.weighted(&[4, 4, 2]);
     let mut any_ph = false;
     for pi in 0..npieces {
@@ -918,6 +1044,11 @@ fn gen_field_fmt(d: &mut Dice, v: &Variant, me: usize, is_enum: bool, cx: &mut C
                 }
             }
         };
+        // a field name taken by an explicit `name = ..` argument earlier no longer denotes the field inside the literal
+        let arg = match arg {
+            ArgForm::Inline(n) if shadowed.contains(&n) => ArgForm::Expr(if forced_ty == Some("p") { format!("*{n}") } else { n }),
+            a => a,
+        };
         // spec
         let ty: String = match (forced_ty, kind) {
             (Some(t), _) => t.to_string(),
@@ -959,6 +1090,9 @@ fn gen_field_fmt(d: &mut Dice, v: &Variant, me: usize, is_enum: bool, cx: &mut C
                 if v.fields[ti].ty.leaf().is_some_and(|l| l.is_copy()) && !inline_copy.contains(&n) {
                     inline_copy.push(n.clone());
                 }
+                if !inlined.contains(&n) {
+                    inlined.push(n.clone());
+                }
                 cx.label("field_fmt_names_field_in_literal");
                 n
             }
@@ -967,7 +1101,25 @@ fn gen_field_fmt(d: &mut Dice, v: &Variant, me: usize, is_enum: bool, cx: &mut C
                     cx.label("field_fmt_expression_argument");
                 }
                 if d.chance(25) {
-                    let alias = format!("k{}", named_args.len());
+                    // the name of the explicit argument: a fresh one, or (shadowing it) the name of another field
+                    let other: Vec<String> = if v.kind == VKind::Named {
+                        v.fields
+                            .iter()
+                            .enumerate()
+                            .filter(|(i, f)| *i != ti && !f.name.starts_with("r#") && !f.ty.uses_param() && !inlined.contains(&f.name) && !shadowed.contains(&f.name))
+                            .map(|(_, f)| f.name.clone())
+                            .collect()
+                    } else {
+                        vec![]
+                    };
+                    let alias = if !other.is_empty() && d.chance(35) {
+                        let a = other[d.pick(other.len())].clone();
+                        shadowed.push(a.clone());
+                        cx.label("field_fmt_argument_named_like_a_field");
+                        a
+                    } else {
+                        format!("k{}", named_args.len())
+                    };
                     named_args.push(format!("{alias} = {e}"));
                     alias
                 } else {
@@ -996,7 +1148,15 @@ fn gen_field_fmt(d: &mut Dice, v: &Variant, me: usize, is_enum: bool, cx: &mut C
     }
     let mut args = pos_args;
     args.extend(named_args);
-    Attr::Fmt { lit, args, inline_copy }
+    let trailing = d.chance(15);
+    if trailing {
+        cx.label("field_fmt_trailing_comma");
+    }
+    let raw = !lit.contains('"') && !lit.contains('\\') && d.chance(10);
+    if raw {
+        cx.label("field_fmt_raw_string_literal");
+    }
+    Attr::Fmt { lit, args, inline_copy, trailing, raw }
 }
 
 enum ArgForm {
@@ -1005,7 +1165,7 @@ enum ArgForm {
 }
 
 fn gen_variant(d: &mut Dice, depth: usize, cx: &mut Cx, g: &Gen, name: String, kind: VKind, nf: usize) -> Variant {
-    let mut v = Variant { name, kind, fields: vec![] };
+    let mut v = Variant { name, kind, fields: vec![], own_fmt: None };
     let mut used: Vec<&str> = vec![];
     for _ in 0..nf {
         let fname = if kind == VKind::Named {
@@ -1032,7 +1192,7 @@ fn use_generics(d: &mut Dice, g: &Gen, v: &mut Variant) {
         extra.push(if !g.tps.is_empty() && d.chance(50) { Ty::RefParam(0) } else { Ty::RefStr });
     }
     for k in 0..g.tps.len() {
-        let used = uses(v, &|t| matches!(t, Ty::Param(x) | Ty::VecParam(x) | Ty::RefParam(x) | Ty::Phantom(x) if *x == k))
+        let used = uses(v, &|t| t.param_used() == Some(k))
             || extra.iter().any(|t| matches!(t, Ty::RefParam(x) if *x == k));
         if !used {
             extra.push(match d.weighted(&[5, 2, 2]) {
@@ -1093,9 +1253,43 @@ fn gen_attrs(d: &mut Dice, v: &mut Variant, is_enum: bool, cx: &mut Cx) {
     }
 }
 
+/// `#[debug(where(T: Bound))]` — the spelling `where(..)` is listed next to `bound(..)`/`bounds(..)` in the rustdoc of
+/// `BoundsAttribute` (impl/src/fmt/mod.rs:27-33) and looked for by the Display parser (display.rs:127), but it is
+/// rejected ("expected identifier, found keyword `where`": mod.rs:41 parses a `syn::Path`, which refuses keywords).
+/// The user documentation only names `bound(..)`; not generated while this is `true`.
+const AVOID_WHERE_BOUND_KEYWORD: bool = true;
+
+/// `#[debug("..", args)]` on an enum variant. The literal always carries text besides its placeholders, so it is never
+/// the "trivially substitutable" form whose formatter flags are forwarded (debug.md, Transparency).
+fn gen_variant_fmt(d: &mut Dice, v: &mut Variant, cx: &mut Cx) {
+    let tag = ["v=", "<", "é ", "V: "][d.pick(4)];
+    let a = if v.fields.is_empty() {
+        Attr::Fmt { lit: format!("{tag}{}", ["unit", "", "x\ny"][d.pick(3)]), args: vec![], inline_copy: vec![], trailing: d.chance(15), raw: false }
+    } else {
+        let me = d.pick(v.fields.len());
+        match gen_field_fmt(d, v, me, true, cx) {
+            Attr::Fmt { lit, args, inline_copy, trailing, raw } => Attr::Fmt { lit: format!("{tag}{lit}"), args, inline_copy, trailing, raw },
+            other => other,
+        }
+    };
+    v.own_fmt = Some(a);
+}
+
 fn gen_type(d: &mut Dice, depth: usize, cx: &mut Cx) -> usize {
     // shape: 0 unit struct, 1 `S()`, 2 `S{}`, 3 tuple struct, 4 named struct, 5 enum
-    let shape = if depth == 0 { d.weighted(&[3, 2, 2, 31, 30, 32]) } else { d.weighted(&[1, 1, 1, 9, 9, 7]) };
+    let shape = if depth == 0 { d.weighted(&[3, 2, 2, 31, 30, 32, 2]) } else { d.weighted(&[1, 1, 1, 9, 9, 7]) };
+    if shape == 6 {
+        // an enum without variants: nothing to print, but the derive has to compile (as std's does)
+        let mut base = TYPE_NAMES[d.weighted(&[4, 3, 2, 2, 2, 2, 2, 1, 1, 1])].to_string();
+        let idx = cx.types.len();
+        if cx.used_names.contains(&base) {
+            base = format!("{base}{idx}");
+        }
+        cx.used_names.push(base.clone());
+        cx.label("empty_enum");
+        cx.types.push(TypeDef { name: base, is_enum: true, gen: Gen::default(), variants: vec![] });
+        return idx;
+    }
     let with_attrs = d.chance(62);
     let gen = if shape >= 3 && d.chance(30) { gen_generics(d) } else { Gen::default() };
     let mut base = TYPE_NAMES[d.weighted(&[4, 3, 2, 2, 2, 2, 2, 1, 1, 1])].to_string();
@@ -1125,7 +1319,7 @@ fn gen_type(d: &mut Dice, depth: usize, cx: &mut Cx) -> usize {
             let vi = match variants.iter().position(|v| !v.fields.is_empty()) {
                 Some(i) => i,
                 None => {
-                    variants.push(Variant { name: "Gv".into(), kind: if d.chance(50) { VKind::Tuple } else { VKind::Named }, fields: vec![] });
+                    variants.push(Variant { name: "Gv".into(), kind: if d.chance(50) { VKind::Tuple } else { VKind::Named }, fields: vec![], own_fmt: None });
                     variants.len() - 1
                 }
             };
@@ -1159,8 +1353,32 @@ fn gen_type(d: &mut Dice, depth: usize, cx: &mut Cx) -> usize {
     }
     if with_attrs {
         for v in variants.iter_mut() {
-            gen_attrs(d, v, is_enum, cx);
+            if is_enum && !v.fields.iter().any(|f| f.ty.uses_param()) && d.chance(14) {
+                // a variant-level format: this variant prints as the literal, its siblings are not affected
+                gen_variant_fmt(d, v, cx);
+            } else {
+                gen_attrs(d, v, is_enum, cx);
+            }
         }
+        let own = variants.iter().filter(|v| v.own_fmt.is_some()).count();
+        if own > 0 {
+            cx.label("variant_level_format");
+            if own < variants.len() {
+                cx.label("variant_level_format_with_sibling");
+            }
+            if variants.iter().any(|v| v.own_fmt.is_none() && !v.fields.is_empty()) {
+                cx.label("variant_level_format_with_fielded_sibling");
+            }
+        }
+    }
+    if !gen.dbg_bounds.is_empty() {
+        cx.label("container_bound_attribute");
+        if !variants.iter().any(|v| v.own_fmt.is_some() || v.fields.iter().any(|f| !matches!(f.attr, Attr::None))) {
+            cx.label("container_bound_attribute_only");
+        }
+    }
+    if variants.iter().any(|v| v.fields.iter().any(|f| matches!(f.ty, Ty::TupParam(_) | Ty::ArrParam(_) | Ty::OptVecParam(_) | Ty::BoxParam(_) | Ty::PtrParam(_)))) {
+        cx.label("generic_param_in_composite_type");
     }
     // labels
     for v in &variants {
@@ -1280,7 +1498,7 @@ fn fixed() -> Vec<GenCase> {
         name: name.into(),
         is_enum: false,
         gen: Gen::default(),
-        variants: vec![Variant { name: name.into(), kind, fields }],
+        variants: vec![Variant { name: name.into(), kind, fields, own_fmt: None }],
     };
     let i = || Ty::Leaf(Leaf::I32);
     vec![
@@ -1292,7 +1510,7 @@ fn fixed() -> Vec<GenCase> {
         fixed_case(vec![st("S", VKind::Tuple, vec![f("", i(), Attr::Skip("skip")), f("", i(), Attr::Skip("ignore"))])], vec!["S(1, 2)"], "fixed_all_skipped_tuple"),
         fixed_case(vec![st("S", VKind::Named, vec![f("a", i(), Attr::Skip("skip"))])], vec!["S { a: 1 }"], "fixed_all_skipped_named"),
         fixed_case(
-            vec![st("S", VKind::Tuple, vec![f("", Ty::Leaf(Leaf::Str), Attr::Fmt { lit: "{}\n".into(), args: vec!["_0".into()], inline_copy: vec![] }), f("", i(), Attr::Skip("skip"))])],
+            vec![st("S", VKind::Tuple, vec![f("", Ty::Leaf(Leaf::Str), Attr::Fmt { lit: "{}\n".into(), args: vec!["_0".into()], inline_copy: vec![], trailing: false, raw: false }), f("", i(), Attr::Skip("skip"))])],
             vec!["S(\"a\\nb\", 2)"],
             "fixed_multiline_field_format",
         ),
@@ -1326,7 +1544,7 @@ pub fn prop() -> DiceProp {
         fixed,
         classify,
         rule: format!(
-            "families of 1..n type definitions (unit / `S()` / `S{{}}` / 1..4+ positional or named fields / enums with mixed variants; lifetime, type and const parameters in both orders with bounds, where-clauses and defaults; raw-identifier type, variant and field names; fields of primitive, string, container, reference types and of other generated derive_more::Debug types to depth 3; every field independently plain / #[debug(skip)] / #[debug(ignore)] / #[debug(\"lit\", args)]) rendered as three twins with identical names: derive_more::Debug, the reference (std #[derive(Debug)] when attribute-less, otherwise std builders with finish_non_exhaustive() and &format_args!(LIT, ARGS)), and a hand-written twin carrying the recorded defect models; 2+ values per case (every variant of an enum) x {} outer specs (all-pairs over fill/align x sign x # x 0 x width x precision x ?/x?/X?, full product of #/type/0/width/precision, 40 fixed random) x {} nestings (bare, Some, vec!, tuple, BTreeMap, std-derived named/tuple wrappers, derive_more-derived named/tuple/skipping wrappers) compared text for text; non-trivial = the family has at least one field or a raw identifier (flags, nesting and skip can change the text); distinct by program text",
+            "families of 1..n type definitions (unit / `S()` / `S{{}}` / 1..4+ positional or named fields / enums with mixed variants; lifetime, type and const parameters in both orders with bounds, where-clauses and defaults; raw-identifier type, variant and field names; fields of primitive, string, container, reference types and of other generated derive_more::Debug types to depth 3; every field independently plain / #[debug(skip)] / #[debug(ignore)] / #[debug(\"lit\", args)] incl. trailing comma, raw-string literal, empty literal, an explicit argument named like another field; enum variants with a variant-level #[debug(\"lit\", args)] next to plain siblings; container #[debug(bound(..))]/#[debug(bounds(..))] attributes; type parameters inside tuple/array/Option<Vec<_>>/Box/raw-pointer field types and inside another generated generic type; an enum without variants) rendered as three twins with identical names: derive_more::Debug, the reference (std #[derive(Debug)] when attribute-less, otherwise std builders with finish_non_exhaustive() and &format_args!(LIT, ARGS)), and a hand-written twin carrying the recorded defect models; 2+ values per case (every variant of an enum) x {} outer specs (all-pairs over fill/align x sign x # x 0 x width x precision x ?/x?/X?, full product of #/type/0/width/precision, 40 fixed random) x {} nestings (bare, Some, vec!, tuple, BTreeMap, std-derived named/tuple wrappers, derive_more-derived named/tuple/skipping wrappers) compared text for text; non-trivial = the family has at least one field or a raw identifier (flags, nesting and skip can change the text); distinct by program text",
             ns,
             NESTS.len()
         ),
@@ -1353,6 +1571,16 @@ pub fn prop() -> DiceProp {
             ("unit_struct".into(), 0.005),
             ("empty_parens".into(), 0.02),
             ("empty_braces".into(), 0.02),
+            ("variant_level_format".into(), 0.04),
+            ("variant_level_format_with_fielded_sibling".into(), 0.03),
+            ("container_bound_attribute".into(), 0.05),
+            ("container_bound_attribute_only".into(), 0.02),
+            ("field_fmt_trailing_comma".into(), 0.04),
+            ("field_fmt_raw_string_literal".into(), 0.03),
+            ("field_fmt_empty_literal".into(), 0.01),
+            ("generic_param_in_composite_type".into(), 0.06),
+            ("nested_generic_instantiated_with_param".into(), 0.01),
+            ("empty_enum".into(), 0.003),
         ],
         shards: 0,
     }
